@@ -77,7 +77,7 @@ type Session struct {
 
 type Obj struct{ Id int64 }
 
-func salOf(tag int64) int64 { return tag%7 - 3 }
+func salOf(tag int64) int64 { return (tag/10)%10 - 3 } // tag = version*100 + salience code*10 + rule index
 
 func goid() int64 {
 	var buf [64]byte
